@@ -2,6 +2,8 @@
 //!
 //! Re-exports of private items, so that an external harness can run them on generated inputs.
 
+pub mod sync;
+
 pub use crate::bab::{solve as bab_solve, NodeResult, Statistics};
 pub use crate::hungarian::{hungarian_algorithm, EdgeWeight, Matching, Score};
 pub use crate::util::{binom, IterSelections, KSelectionIterator};
